@@ -190,8 +190,12 @@ Definition spec_rows (a : adata) (name : bytes) : list (list cell) :=
   | Some (AText _) => []
   | None => match adata_get a name with Some (ARows r) => r | _ => [] end
   end.
+(* keyword pairs are a dictionary: a new key goes to the end, a key that exists keeps its place and takes the new value
+   (what the reader's `self[key] = value` does when a later line re-states a keyword) *)
+Definition upd_pairs (base new : list (bytes * bytes)) : list (bytes * bytes) :=
+  fold_left (fun acc kv => assoc_set (fst kv) (snd kv) acc) new base.
 Definition spec_append (d : doc) (a : adata) : doc :=
-  mkdoc (d_comments d) (d_pairs d ++ spec_pairs d a) (d_enums d)
+  mkdoc (d_comments d) (upd_pairs (d_pairs d) (spec_pairs d a)) (d_enums d)
         (map (fun t => mktable (t_name t) (t_cols t) (t_rows t ++ spec_rows a (upper (t_name t)))) (d_tables d)).
 Definition op_data (x : op) : option adata :=
   match x with
